@@ -178,12 +178,19 @@ def main(argv):
     if k_bad and not failing:
         # failing-input search, step (ii): the inputs on which model and code disagree, on the real code,
         # under every option combination and more schedules
+        # richest first: nested loops with interrupts at several levels need more than the small skeletons
+        def richness(item):
+            src = item[0]
+            return (src.count("while ") + src.count("for "), src.count("break") + src.count("continue") + src.count("return"), len(src))
+        ranked = sorted(k_bad, key=richness, reverse=True)
+        pool = ranked[:200] + k_bad[:60]
         cands = []
-        for src, cfg, detail in k_bad[:150]:
-            cands.append(src)
+        for src, cfg, detail in pool:
             if src in by_src:
                 pl, blk = by_src[src]
                 cands.append(gen_skel.source(gen_skel.number(gen_skel.densify(blk)), pl))
+            cands.append(src)
+        cands = list(dict.fromkeys(cands))
         for src in cands:
             hit = False
             for un in ("ast.unparse", "oneliner"):
